@@ -104,11 +104,25 @@ Fixpoint str_body_ok (q : ascii) (s : str) : bool :=
         end
       else str_body_ok q r
   end.
-(* decimal literal: digits [. digits] [e digits] *)
+(* decimal literal: digits [. digits] [e digits]; the integer part is 0 or starts with a non-zero digit: module code
+   is strict, so a leading zero (legacy octal 01, 007 and the non-octal forms 08, 09, 00) is a syntax error.
+   Hex / octal / binary prefixes, numeric separators and signs are not produced by the templates and are rejected
+   (a sign is a separate token anyway) *)
 Fixpoint all_digits (s : str) : bool := match s with [] => true | c :: r => is_digit c && all_digits r end.
 Definition num_ok (s : str) : bool :=
   let '(ip, r) := span is_digit s in
-  match ip with [] => false | _ =>
+  match ip with
+  | [] => false
+  | d :: (_ :: _) => if Ascii.eqb d "0"%char then false else
+    let r1 := match r with
+              | c :: r' => if Ascii.eqb c "."%char then let '(fp, r'') := span is_digit r' in (match fp with [] => None | _ => Some r'' end) else Some r
+              | [] => Some r end in
+    match r1 with
+    | None => false
+    | Some [] => true
+    | Some (e :: ex) => (Ascii.eqb e "e"%char || Ascii.eqb e "E"%char) && (match ex with [] => false | _ => all_digits ex end)
+    end
+  | _ =>
     let r1 := match r with
               | c :: r' => if Ascii.eqb c "."%char then let '(fp, r'') := span is_digit r' in (match fp with [] => None | _ => Some r'' end) else Some r
               | [] => Some r end in
